@@ -329,6 +329,14 @@ class C08(Prop):
                         h = b'\xa1\x07' + refcbor.head(4, n) + sg0 * idx + deep + sg0 * (n - 1 - idx)
                         ops.append(mk('dec Header b' + h.hex(), k='wide-deep', n=n, depth=kk))
                         if idx == 0: ops.append(mk('dec CoseSign1 b' + (b'\x84' + refcbor.head(2, len(h)) + h + b'\xa0\xf6\x40').hex(), k='wide-deep', n=n, depth=kk))
+        # every rule that relates two entries of one map — IV with Partial IV in either wire order, a repeated label, a label beside its
+        # near-duplicate — at every nesting level through every carrier pattern, not left to the random placement above (seeded C08-r12 was
+        # reported at one seed and not at another)
+        for inner_ in ('a2054101064101', 'a2064101054101', 'a3054101186300064102', 'a2044101044102', 'a201260126', 'a26161006161' + '01', 'a2054101' + '0640'):
+            for kk in (1, 2, 15, 16):
+                for pat in NEST_PATTERNS:
+                    h_ = nestG(kk, pat, inner=bytes.fromhex(inner_))
+                    ops.append(mk('dec Header b' + h_.hex(), k='deep-pair', n=kk)); ops.append(mk('dec CoseSign1 b' + (b'\x84\x40' + h_ + b'\xf6\x40').hex(), k='deep-pair', n=kk))
         # encoding independence: same header value in two encodings must give the same result
         for _ in range(budget(tier, 800, 10000)):
             v = g.header()
